@@ -59,6 +59,11 @@ pub fn main() {
                         let (chips, crc, _) = state(&l);
                         out.push(json!({"rd": rd, "chips": chips, "crc": crc}));
                     }
+                    "reset" => {
+                        l.reset();
+                        let (chips, crc, _) = state(&l);
+                        out.push(json!({"chips": chips, "crc": crc}));
+                    }
                     "vram" => {
                         let (_, _, payload) = state(&l);
                         out.push(json!({"vram": payload}));
